@@ -106,6 +106,16 @@ def run(tier, seed, replay=None):
         ("a = [1, 2, 3]; m = {\"v\": a[0:1]}; m.v[1] = 9; [a, m.v]", "[[i:1,i:9,i:3],[i:1,i:9]]", "... into a map entry"),
         ("a = [1, 2, 3]; l = [a[0:1]]; (l[0])[1] = 9; [a, l[0]]", "[[i:1,i:9,i:3],[i:1,i:9]]", "... into a parenthesised element"),
     ]
+    # a store into a character of a string gives the same new string wherever the string sits: a variable, a list slot, a typed slot,
+    # a struct field (s[:i] + v + s[i+1:], whatever the length of v)
+    for _mk, _t in (("t = \"abc\"", "t"), ("l = [\"abc\"]", "l[0]"), ("a = make([]string, 1); a[0] = \"abc\"", "a[0]"), ("s = make(struct { S string }); s.S = \"abc\"", "s.S"),
+                    ("m = map[string]string{\"k\": \"abc\"}", "m.k"), ("a = make([][]string, 1); a[0] = [\"abc\"]", "a[0][0]")):
+        detached += [
+            ("%s; %s[1] = \"xyz\"; %s" % (_mk, _t, _t), "s:6178797a63", "several bytes stored at an index of a string held in " + _t),
+            ("%s; %s[1] = \"\"; %s" % (_mk, _t, _t), "s:6163", "no byte stored at an index of a string held in " + _t),
+            ("%s; %s[0] = \"q\"; %s" % (_mk, _t, _t), "s:716263", "one byte stored at an index of a string held in " + _t),
+            ("%s; %s[3] = \"xyz\"; %s" % (_mk, _t, _t), "s:61626378797a", "a store at index len of a string held in " + _t),
+        ]
     # three-index slices: 0 <= lo <= hi <= max <= cap(a) as in Go, the capacity of the source counts, not its length
     detached += [
         ("a = [1, 2, 3, 4, 5]; b = a[0:2]; c = b[0:1:4]; c += [9, 8, 7]; [a, c]", "[[i:1,i:9,i:8,i:7,i:5],[i:1,i:9,i:8,i:7]]",
